@@ -1,15 +1,18 @@
 #!/bin/sh
-# Builds the trace replay driver from the Coq-extracted model.
-#   proto_model.ml(i) are produced by coq/Proto/Extract.v (part of the normal Coq build).
-# Output: /verif/.build/ocaml-proto/replay
+# Re-extracts the Proto model (coq/Proto/Extract.v, needs coq/Proto/Model.vo from the main
+# build) and builds the trace replay driver.  Output: /verif/.build/ocaml-proto/replay
 set -eu
 here=$(cd "$(dirname "$0")" && pwd)
-out=${1:-/verif/.build/ocaml-proto}
+root=$(cd "$here/../.." && pwd)
+out=$root/.build/ocaml-proto
 mkdir -p "$out"
-cp "$here/proto_model.mli" "$here/proto_model.ml" "$here/replay.ml" "$out/"
 cd "$out"
-ocamlfind ocamlopt -O2 -w -a -c proto_model.mli 2>/dev/null || ocamlfind ocamlopt -w -a -c proto_model.mli
+rm -f proto_model.ml proto_model.mli *.cm* *.o
+sed 's#"/verif/ocaml/proto/proto_model.ml"#"proto_model.ml"#' "$root/coq/Proto/Extract.v" > Extract.v
+timeout 600 coqc -Q "$root/coq" Salsa -o "$out/Extract.vo" Extract.v > extract.log 2>&1
+cp "$here/replay.ml" .
+ocamlfind ocamlopt -w -a -c proto_model.mli
 ocamlfind ocamlopt -w -a -c proto_model.ml
-ocamlfind ocamlopt -w +a-4-9-40-41-42-44-45-70 -c replay.ml
+ocamlfind ocamlopt -w -a -c replay.ml
 ocamlfind ocamlopt -o replay proto_model.cmx replay.cmx
 echo "built $out/replay"
